@@ -8,5 +8,6 @@ INVARIANT SkipComparesNothing
 INVARIANT Binding
 INVARIANT HeaderBinding
 INVARIANT SscNotCompared
+INVARIANT NoConfigWeakens
 INVARIANT OrderMatters
 POSTCONDITION AllCasesVisited
